@@ -2,7 +2,7 @@
     Statements only; each closed by [exact] of a lemma in Proofs/. *)
 From Coq Require Import Permutation.
 From DivanV Require Import Base.Res Model.SplitVec Model.Filter Model.Retain
-  Proofs.SplitVec Proofs.Filter Proofs.Retain.
+  Proofs.SplitVec Proofs.Filter Proofs.Retain Model.RunnerConfig Proofs.RunnerConfig.
 
 (** [SplitVec::insert] never panics on a well-formed vector, keeps the
     partition invariant, appends to the first half in order when inserting
@@ -99,3 +99,24 @@ Theorem C13_retain_model_sb : forall (f : str -> bool) (ts : list tree),
   retain_sb f ts (retain f ts) = true.
 Proof. exact retain_sb_model. Qed.
 Print Assumptions C13_retain_model_sb.
+
+(** * The filter set a runner ends up with: builder skips made before parsing,
+    positional filters, [--skip] filters ([--exact] governs these two), builder
+    skips made afterwards.  A path is selected iff no skip (from any source)
+    matches it and there is no positional filter or one of them matches. *)
+Theorem C13_runner_filter_glue : forall (matches : str -> str -> bool)
+  (skips_before : list pfilter) (is_exact : bool) (positional skip : list str) (skips_after : list pfilter) (p : str),
+  runner_filter_is_match matches skips_before is_exact positional skip skips_after p =
+  Ok (negb (existsb (fun f => filter_is_match matches f p) skips_before
+            || existsb (fun s => filter_is_match matches (mk_filter is_exact s) p) skip
+            || existsb (fun f => filter_is_match matches f p) skips_after)
+      && (match positional with [] => true | _ => false end
+          || existsb (fun s => filter_is_match matches (mk_filter is_exact s) p) positional)).
+Proof. exact runner_filter_glue. Qed.
+Print Assumptions C13_runner_filter_glue.
+
+(** Whatever order the filters were given in. *)
+Theorem C13_filter_order_irrelevant : forall (matches : str -> str -> bool) (ops ops' : list (pfilter * bool)) (p : str),
+  Permutation ops ops' -> fs_query matches ops p = fs_query matches ops' p.
+Proof. exact filter_order_irrelevant. Qed.
+Print Assumptions C13_filter_order_irrelevant.
